@@ -957,6 +957,7 @@ def run(tier: str, seed: int, replay=None) -> int:
     codes: Dict[int, List[int]] = {i: v for (i, _), v in zip(exprs, vals)}
 
     kf_altcycle = 0
+    kf_inexact = 0
     kf_rules: Dict[str, int] = {}
     kf_altbase = 0
     c04c_open = any(f.fid == "C04-c" and f.kind == "open" for f in findings)
@@ -998,6 +999,13 @@ def run(tier: str, seed: int, replay=None) -> int:
         if code == 2 and not m["in_f"] and ft["altcycle"]:
             kf_altcycle += 1        # C04-a: outside F04w and the implementation fails exactly as the faithful model predicts
             continue
+        if (code == 3 and ft["altcycle"] and not m["in_f"] and ft["altbase_objs"] and m.get("renamed_rel") and "Mapping" in (res.get("py_iso") or "")):
+            # C04-a, INEXACT in the model: below an alternatively mapped DAO whose mapping renames a relationship the real traversal
+            # order differs per direction (to_dao: parent's relationships first; from_dao: the renamed ones last, inside the temporary
+            # parent conversion), so WHICH objects keep a mapping object can differ from the model's single field order
+            kf_altcycle += 1
+            kf_inexact += 1
+            continue
         if c04c_open and ft["altbase_objs"] >= 2 and "_objs" in res and py_iso(res["_objs"][0], res["_objs"][1], relax_altbase=True) is None:
             kf_altbase += 1          # finding C04-c (not modelled: DAO below an alternatively mapped DAO); narrow matcher above
             continue
@@ -1006,6 +1014,7 @@ def run(tier: str, seed: int, replay=None) -> int:
         rep.note(f"{stale} cases outside F04 where impl = spec but the model predicts a failure (model inexact / finding repaired)")
     dist["generated_models"] = gdist
     rep.extra["distribution"] = dist
+    rep.extra["inexact_model_instances"] = {"C04-a": kf_inexact}
     rep.extra["known_finding_instances"] = {"C04-a": kf_altcycle, "C04-c": kf_altbase, **kf_rules}
     rep.samples = [{"case": m["descr"], "features": m["ft"]} for m in metas[:: max(1, len(metas) // 5)]][:5]
 
